@@ -72,11 +72,13 @@ Record bst := mkBst {
   next_pid : nat
 }.
 
-Definition dummy_entry : entry := mkEntry 0%N 0%N true true.
+Definition dummy_entry : entry := mkEntry 0%N 0%N true false.
 Definition get_entry (s : bst) (e : nat) : entry := nth e (ents s) dummy_entry.
 
-Definition entry_done (s : bst) (e : nat) : bool :=
-  e_cancelled (get_entry s e) || memN (e_parent (get_entry s e)) (cancelled s).
+Definition edone (en : list entry) (cn : list cid) (e : nat) : bool :=
+  e_cancelled (nth e en dummy_entry) || memN (e_parent (nth e en dummy_entry)) cn.
+
+Definition entry_done (s : bst) (e : nat) : bool := edone (ents s) (cancelled s) e.
 
 Definition init (progs : list (list bop)) : bst :=
   mkBst [] false [] [] (map (fun p => mkThread Idle p [] []) progs) [] false 0.
@@ -221,10 +223,12 @@ Definition bstep (v : variant) (s : bst) (t : nat) (b : nat) : option bst :=
                         match nth_error (thr s) t' with
                         | Some th' =>
                             match pc th' with
-                            | PubBlocked k' _ x p =>
+                            | PubBlocked k' e' x p =>
+                                if Nat.eqb e e' then
                                 Some (add_log (set_thr s (upd (upd (thr s) t' (ret th' RPubSent)) t
                                                               (ret th0 (RRecv (Got x)))))
                                               (EvDeliver p k' k x t))
+                                else None
                             | _ => None
                             end
                         | None => None
@@ -255,10 +259,12 @@ Definition bstep (v : variant) (s : bst) (t : nat) (b : nat) : option bst :=
                 match nth_error (thr s) t' with
                 | Some th' =>
                     match pc th' with
-                    | RecvBlocked k' _ _ =>
+                    | RecvBlocked k' e' _ =>
+                        if Nat.eqb e e' then
                         Some (add_log (set_thr s (upd (upd (thr s) t' (ret th' (RRecv (Got x)))) t
                                                       (ret th RPubSent)))
                                       (EvDeliver p k k' x t'))
+                        else None
                     | _ => None
                     end
                 | None => None
